@@ -61,4 +61,21 @@ theorem readRawMsgFromTCP_eq (c : Stream) : Gen.readRawMsgFromTCP c = readRaw c 
       | error e => rfl
       | ok q => obtain ⟨b, c''⟩ := q; rfl
 
+/-- `pool.PackTCPBuffer` (regenerated) frames the packed message exactly like the two raw writers. -/
+theorem packTCPBuffer_eq (w : Bytes) : Gen.packTCPBuffer w = frame w := by
+  unfold Gen.packTCPBuffer frame
+  by_cases h : w.length > 65535
+  · have : ((w.length : Int) > 65535) := by omega
+    simp [h, this]
+  · have : ¬ ((w.length : Int) > 65535) := by omega
+    have hb : w.length ≤ 65535 := by omega
+    have hc : (2 : Int) + (w.length : Int) = (w.length : Int) + 2 := by omega
+    simp only [this, decide_false, h, if_false, Bool.false_eq_true, hc]
+    simpa using frame_lemma w hb
+
+/-- `pool.PackBuffer` (regenerated) hands out an exact private copy of the packed message. -/
+theorem packBuffer_eq (w : Bytes) : Gen.packBuffer w = w := by
+  unfold Gen.packBuffer
+  simp [Go.make, Go.copyAt]
+
 end Refine.C16
